@@ -11,12 +11,6 @@ def parseDescType : String → Option DescType
   | "shwpkh" => some .shWpkh | "wsh" => some .wsh | "shwsh" => some .shWsh | "tr" => some .tr
   | _ => none
 
-/-- tag `<type>.<class>` ↦ type -/
-def tagType (tag : String) : Option DescType :=
-  match tag.splitOn "." with
-  | t :: _ => parseDescType t
-  | _ => none
-
 def parseItem (s : String) : Option Item :=
   match s.splitOn ":" with
   | ["pk", n] => n.toNat?.map fun n => .ph (.pubkey 0 n)
@@ -58,14 +52,13 @@ def opsPlan (_t : Tables) (kind op : String) (args : List String) : Option Strin
   | "C", "assetsquery", [kfp, kpath, sfp, spath, ecdsa] => do
     let kp ← parsePath kpath; let sp ← parsePath spath
     let fpNat := fun (s : String) => (s.toList.foldl (fun a c => a * 256 + c.toNat) 0)
-    let r := hasEcdsaKey isKeyDirectChildOf (fpNat kfp) kp [⟨fpNat sfp, sp, ecdsa == "1"⟩]
-    pure (match r with | some true => "true" | some false => "false" | none => "PANIC")
+    pure (if hasEcdsaKey (fpNat kfp) kp [⟨fpNat sfp, sp, ecdsa == "1"⟩] then "true" else "false")
   -- model of Plan::{witness_size, scriptsig_size, satisfaction_weight}
-  -- (the explicit script's length is on the line for the repaired formula `scriptsigSizeFixed`)
-  | "C", "plansize", [ty, tmpl, _scriptLen] => do
-    let ty ← parseDescType ty
+  -- C plansize <type> <template> <length of explicit_script()>
+  | "C", "plansize", [ty, tmpl, scriptLen] => do
+    let ty ← parseDescType ty; let n ← scriptLen.toNat?
     let t ← (splitItems tmpl).mapM parseItem
-    pure s!"{Plan.witnessSize ty t} {Plan.scriptsigSize ty t} {Plan.satisfactionWeight ty t}"
+    pure s!"{Plan.witnessSize ty t} {Plan.scriptsigSize ty t n} {Plan.satisfactionWeight ty t n}"
   -- model of the two assemblies from the completed stack
   | "C", "planglue", [ty, script, inner, stack] => do
     let ty ← parseDescType ty
@@ -92,22 +85,6 @@ def opsPlan (_t : Tables) (kind op : String) (args : List String) : Option Strin
                 else if a == b.dropLast then "bad:scriptsig-lacks-last-push(redeem-script)"
                 else "bad:scriptsig-differs"
               | _, _ => "bad:scriptsig-differs")
-  -- the same on the repaired glue: items of the plan's scriptSig, (+ redeem script for sh),
-  -- re-encoded by the model of witness_to_scriptsig, must be the satisfier's scriptSig
-  -- J plan-same-fixed <tag> <mode> <desc> <assets> <explicit script> <plan scriptSig> <sat wit> <sat scriptSig>
-  | "J", "plan-same-fixed", [tag, _mode, _desc, _assets, script, pss, sw, sss] => do
-    let ty ← tagType tag
-    let script ← Hash.ofHex script; let pss ← Hash.ofHex pss
-    let sw ← parseHexList sw; let sss ← Hash.ofHex sss
-    match pushedItems pss with
-    | none => pure "bad:plan-scriptsig-not-push-only"
-    | some items =>
-      -- idempotent: a scriptSig that already ends with the redeem script is only re-encoded
-      let fixed :=
-        if ty == .sh && items.getLast? == some script then witnessToScriptSig items
-        else (planSatisfyFixed ⟨ty, script, []⟩ items).2
-      pure (if !sw.isEmpty then "bad:unexpected-witness"
-            else if fixed == sss then "ok" else "bad:differs-even-after-repair")
   -- (e) J sizes <tag> <mode> <desc> <assets> <claimed wit> <claimed scriptSig> <claimed weight> <real wit> <real scriptSig>
   | "J", "sizes-adj", [_tag, _mode, _desc, _assets, cw, css, cwt, mw, mss, _discount] => do
     let cw ← cw.toNat?; let css ← css.toNat?; let cwt ← cwt.toNat?
@@ -123,11 +100,6 @@ def opsPlan (_t : Tables) (kind op : String) (args : List String) : Option Strin
           else if css < mss then s!"bad:scriptsig_size-{css}-below-real-{mss}"
           else if cwt < mw + 4 * mss then s!"bad:satisfaction_weight-{cwt}-below-real-{mw + 4 * mss}"
           else "ok")
-  -- (c) the plan's own bytes must spend: J planspend <tag> <mode> <desc> <assets> <lt> <sq> <spk> <scriptSig> <witness>
-  | "J", "planspend", [_tag, _mode, _desc, _assets, lt, sq, spk, ss, wit] => do
-    let lt ← lt.toNat?; let sq ← sq.toNat?
-    let spk ← Hash.ofHex spk; let ss ← Hash.ofHex ss; let wit ← parseHexList wit
-    pure (showVerdict (verifySpend (spendEnv _t lt sq) spk ss wit))
   | _, _, _ => none
 
 end MsVerif.Driver
